@@ -1,0 +1,149 @@
+//go:build verif
+
+// Contracts for the verification machinery in /verif (comment-only; no declarations).
+//
+// C01 (Noise): the identity a session reports was derived from the key whose signature over this session's remote
+// static key verified, and it matches the expected peer when the check is enabled.
+
+package noise
+
+//@ func (s *secureSession) handleRemoteHandshakePayload
+//@ prop C01
+//@ inline GetIdentityKey, GetIdentitySig
+//@ ensures result1 == nil ==> called(Unmarshal, 0) && ret(Unmarshal, 0, 0) == nil && arg(Unmarshal, 0, 0) == payload
+//@ ensures result1 == nil ==> called(UnmarshalPublicKey, 0) && ret(UnmarshalPublicKey, 0, 1) == nil && s.remoteKey == ret(UnmarshalPublicKey, 0, 0)
+//@ ensures result1 == nil ==> nth(peer.IDFromPublicKey(s.remoteKey), 1) == nil && s.remoteID == nth(peer.IDFromPublicKey(s.remoteKey), 0)
+//@ ensures result1 == nil && old(s.checkPeerID) ==> s.remoteID == old(s.remoteID)
+//@ ensures result1 == nil ==> called(Verify, 0) && ret(Verify, 0, 0) && ret(Verify, 0, 1) == nil && arg(Verify, 0, 0) == s.remoteKey
+//@ ensures result1 == nil ==> arg(Unmarshal, 0, 1) == nhp && arg(UnmarshalPublicKey, 0, 0) == nhp.IdentityKey && arg(Verify, 0, 2) == nhp.IdentitySig
+//@ ensures result1 == nil ==> arg(Verify, 0, 1) == msg && len(arg(Verify, 0, 1)) == 24 + len(remoteStatic) && len(payloadSigPrefix) == 24 &&
+//@         payloadSigPrefix == "noise-libp2p-static-key:"
+//@ ensures result1 == nil ==> forall i int :: 0 <= i && i < len(payloadSigPrefix) ==> arg(Verify, 0, 1)[i] == payloadSigPrefix[i]
+//@ ensures result1 == nil ==> forall i int :: 0 <= i && i < len(remoteStatic) ==> arg(Verify, 0, 1)[len(payloadSigPrefix) + i] == remoteStatic[i]
+//@ ensures result1 != nil ==> s.remoteID == old(s.remoteID) && s.remoteKey == old(s.remoteKey)
+//@ modifies s.remoteID, s.remoteKey
+
+//@ func (s *secureSession) readHandshakeMessage
+//@ prop C01
+//@ ensures result1 == nil ==> called(ReadMessage, 0) && arg(ReadMessage, 0, 0) == hs && ret(ReadMessage, 0, 3) == nil && result0 == ret(ReadMessage, 0, 0)
+//@ ensures result1 == nil ==> called(readNextMsgInsecure, 0) && ret(readNextMsgInsecure, 0, 0) == nil && arg(ReadMessage, 0, 2) == arg(readNextMsgInsecure, 0, 1) &&
+//@         len(arg(ReadMessage, 0, 2)) == ret(readNextInsecureMsgLen, 0, 0)
+//@ ensures (s.enc == old(s.enc) && s.dec == old(s.dec)) || (called(ReadMessage, 0) && ret(ReadMessage, 0, 3) == nil && ret(ReadMessage, 0, 1) != nil && ret(ReadMessage, 0, 2) != nil)
+//@ modifies s.enc, s.dec, elems(s.rlen[:]), ghost.consumed(s.insecureReader)
+
+//@ func (s *secureSession) sendHandshakeMessage
+//@ prop C01
+//@ ensures called(WriteMessage, 0) && arg(WriteMessage, 0, 0) == hs && arg(WriteMessage, 0, 2) == payload
+//@ ensures result == nil ==> ret(WriteMessage, 0, 3) == nil && called(writeMsgInsecure, 0) && ret(writeMsgInsecure, 0, 1) == nil && arg(writeMsgInsecure, 0, 1) == ret(WriteMessage, 0, 0)
+//@ ensures (s.enc == old(s.enc) && s.dec == old(s.dec)) || (result == nil && ret(WriteMessage, 0, 1) != nil && ret(WriteMessage, 0, 2) != nil)
+//@ modifies s.enc, s.dec, elems(_), ghost.produced(s.insecureConn)
+
+// what we send: our identity key, and our identity key's signature over prefix ++ OUR static key
+//@ func (s *secureSession) generateHandshakePayload
+//@ prop C01
+//@ ensures result1 == nil ==> called(Sign, 0) && arg(Sign, 0, 0) == s.localKey && ret(Sign, 0, 1) == nil && arg(Sign, 0, 1) == toSign
+//@ ensures result1 == nil ==> len(arg(Sign, 0, 1)) == 24 + len(localStatic.Public) && len(payloadSigPrefix) == 24
+//@ ensures result1 == nil ==> forall i int :: 0 <= i && i < len(payloadSigPrefix) ==> arg(Sign, 0, 1)[i] == payloadSigPrefix[i]
+//@ ensures result1 == nil ==> forall i int :: 0 <= i && i < len(localStatic.Public) ==> arg(Sign, 0, 1)[len(payloadSigPrefix) + i] == localStatic.Public[i]
+//@ ensures result1 == nil ==> called(MarshalPublicKey, 0) && ret(MarshalPublicKey, 0, 1) == nil && arg(MarshalPublicKey, 0, 0) == ret(LocalPublicKey, 0, 0) && arg(LocalPublicKey, 0, 0) == s
+//@ ensures result1 == nil ==> called(Marshal, 0) && ret(Marshal, 0, 1) == nil && result0 == ret(Marshal, 0, 0)
+//@ modifies nothing
+
+// authed: the reported peer ID is the one derived from the reported key (derivation succeeded)
+//@ pred authed(s *secureSession) = nth(peer.IDFromPublicKey(s.remoteKey), 1) == nil && s.remoteID == nth(peer.IDFromPublicKey(s.remoteKey), 0)
+
+//@ func (s *secureSession) runHandshake
+//@ prop C01
+// one Noise XX state per handshake, built from this session's role and prologue and a static key generated for it
+//@ ensures err == nil ==> called(NewHandshakeState, 0) && ret(NewHandshakeState, 0, 1) == nil && hs == ret(NewHandshakeState, 0, 0) &&
+//@         arg(NewHandshakeState, 0, 0).Prologue == old(s.prologue) && arg(NewHandshakeState, 0, 0).Initiator == old(s.initiator) &&
+//@         arg(NewHandshakeState, 0, 0).StaticKeypair.Public == kp.Public && arg(NewHandshakeState, 0, 0).StaticKeypair.Private == kp.Private &&
+//@         arg(NewHandshakeState, 0, 0).Pattern.Name == noise.HandshakeXX.Name && arg(NewHandshakeState, 0, 0).CipherSuite == cipherSuite
+// initiator: the payload of message 2, read through that state, is checked against that state's remote static key
+//@ ensures err == nil && old(s.initiator) ==> called(handleRemoteHandshakePayload, 0) && ret(handleRemoteHandshakePayload, 0, 1) == nil &&
+//@         arg(handleRemoteHandshakePayload, 0, 0) == s && arg(handleRemoteHandshakePayload, 0, 1) == ret(readHandshakeMessage, 0, 0) &&
+//@         ret(readHandshakeMessage, 0, 1) == nil && arg(readHandshakeMessage, 0, 1) == hs &&
+//@         arg(handleRemoteHandshakePayload, 0, 2) == ret(PeerStatic, 0, 0) && arg(PeerStatic, 0, 0) == hs
+// responder: the same for message 3
+//@ ensures err == nil && !old(s.initiator) ==> called(handleRemoteHandshakePayload, 1) && ret(handleRemoteHandshakePayload, 1, 1) == nil &&
+//@         arg(handleRemoteHandshakePayload, 1, 0) == s && arg(handleRemoteHandshakePayload, 1, 1) == ret(readHandshakeMessage, 2, 0) &&
+//@         ret(readHandshakeMessage, 2, 1) == nil && arg(readHandshakeMessage, 2, 1) == hs &&
+//@         arg(handleRemoteHandshakePayload, 1, 2) == ret(PeerStatic, 1, 0) && arg(PeerStatic, 1, 0) == hs
+// our own payload signs the static key of this very handshake state and goes out through it
+//@ ensures err == nil && old(s.initiator) ==> called(generateHandshakePayload, 0) && ret(generateHandshakePayload, 0, 1) == nil &&
+//@         arg(generateHandshakePayload, 0, 1).Public == kp.Public && arg(sendHandshakeMessage, 1, 2) == ret(generateHandshakePayload, 0, 0) &&
+//@         arg(sendHandshakeMessage, 1, 1) == hs && ret(sendHandshakeMessage, 1, 0) == nil && arg(sendHandshakeMessage, 0, 1) == hs && ret(sendHandshakeMessage, 0, 0) == nil
+//@ ensures err == nil && !old(s.initiator) ==> called(generateHandshakePayload, 1) && ret(generateHandshakePayload, 1, 1) == nil &&
+//@         arg(generateHandshakePayload, 1, 1).Public == kp.Public && arg(sendHandshakeMessage, 2, 2) == ret(generateHandshakePayload, 1, 0) &&
+//@         arg(sendHandshakeMessage, 2, 1) == hs && ret(sendHandshakeMessage, 2, 0) == nil && arg(readHandshakeMessage, 1, 1) == hs && ret(readHandshakeMessage, 1, 1) == nil
+// resulting state
+//@ ensures err == nil ==> authed(s)
+//@ ensures err == nil && old(s.checkPeerID) ==> s.remoteID == old(s.remoteID)
+//@ ensures (s.remoteID == old(s.remoteID) && s.remoteKey == old(s.remoteKey)) || (authed(s) && (old(s.checkPeerID) ==> s.remoteID == old(s.remoteID)))
+//@ ensures s.initiator == old(s.initiator) && s.checkPeerID == old(s.checkPeerID) && s.prologue == old(s.prologue) && s.localKey == old(s.localKey) &&
+//@         s.localID == old(s.localID) && s.insecureConn == old(s.insecureConn) && s.qbuf == old(s.qbuf) && s.qseek == old(s.qseek)
+//@ noframe
+
+// ---- transports: which expected peer, role and check flag a session is created with
+
+// outbound: initiator, peer-ID check always on, expected peer = the dialled peer
+//@ func (t *Transport) SecureOutbound
+//@ prop C01
+//@ callsite newSecureSession#0 requires arg0 == t && arg2 == insecure && arg3 == p && arg4 == nil && arg7 && arg8
+//@ ensures called(newSecureSession, 0) && result1 == ret(newSecureSession, 0, 1)
+//@ ensures result1 == nil && ret(newSecureSession, 0, 0) != nil ==> result0 == ret(newSecureSession, 0, 0)
+// the theorem for the Noise transport: a successful outbound handshake yields a session authenticated as exactly p
+//@ ensures result1 == nil && result0 != nil ==> forall c *secureSession :: c == result0 ==> authed(c) && c.remoteID == p
+//@ noframe
+
+// inbound: responder, the check is on exactly when a peer is expected
+//@ func (t *Transport) SecureInbound
+//@ prop C01
+//@ callsite newSecureSession#0 requires arg0 == t && arg2 == insecure && arg3 == p && arg4 == nil && !arg7 && (arg8 <==> p != "")
+//@ ensures called(newSecureSession, 0) && result1 == ret(newSecureSession, 0, 1)
+//@ ensures result1 == nil && ret(newSecureSession, 0, 0) != nil ==> result0 == ret(newSecureSession, 0, 0)
+//@ ensures result1 == nil && result0 != nil ==> forall c *secureSession :: c == result0 ==> authed(c) && (p != "" ==> c.remoteID == p)
+//@ noframe
+
+// per-connection options (WebTransport / WebRTC): the prologue is the configured one; the check is on unless disabled
+//@ func (i *SessionTransport) SecureOutbound
+//@ prop C01
+//@ callsite newSecureSession#0 requires arg0 == i.t && arg2 == insecure && arg3 == p && arg4 == i.prologue && arg7 && (arg8 <==> !i.disablePeerIDCheck)
+//@ ensures called(newSecureSession, 0) && result1 == ret(newSecureSession, 0, 1)
+//@ ensures ret(newSecureSession, 0, 0) != nil ==> result0 == ret(newSecureSession, 0, 0)
+//@ ensures result1 == nil && result0 != nil ==> forall c *secureSession :: c == result0 ==> authed(c) && (!old(i.disablePeerIDCheck) ==> c.remoteID == p)
+//@ noframe
+
+//@ func (i *SessionTransport) SecureInbound
+//@ prop C01
+//@ callsite newSecureSession#0 requires arg0 == i.t && arg2 == insecure && arg3 == p && arg4 == i.prologue && !arg7 && (arg8 <==> (!i.disablePeerIDCheck && p != ""))
+//@ ensures called(newSecureSession, 0) && result1 == ret(newSecureSession, 0, 1)
+//@ ensures ret(newSecureSession, 0, 0) != nil ==> result0 == ret(newSecureSession, 0, 0)
+//@ ensures result1 == nil && result0 != nil ==> forall c *secureSession :: c == result0 ==> authed(c) && (!old(i.disablePeerIDCheck) && p != "" ==> c.remoteID == p)
+//@ noframe
+
+// ---- session options (used by WebTransport / WebRTC): the option closures set exactly the field they are named after
+//@ func Prologue
+//@ prop C01
+//@ modifies nothing
+//@ closure 0
+//@ ensures result == nil && s.prologue == prologue
+//@ modifies s.prologue
+
+//@ func DisablePeerIDCheck
+//@ prop C01
+//@ modifies nothing
+//@ closure 0
+//@ ensures result == nil && s.disablePeerIDCheck
+//@ modifies s.disablePeerIDCheck
+
+// ---- what the session reports is what the handshake stored
+//@ func (s *secureSession) RemotePeer
+//@ prop C01
+//@ ensures result == s.remoteID
+//@ modifies nothing
+
+//@ func (s *secureSession) RemotePublicKey
+//@ prop C01
+//@ ensures result == s.remoteKey
+//@ modifies nothing
